@@ -95,13 +95,26 @@ toposort = Contract(
 # = completion order (for the empty answer), snapshots `nodes0`/`push0` at the moment a cycle is detected, `DJ[x]` =
 # deepest popped stack index holding x.
 reverse_dict = Contract(
-    MODULE, "reverse_dict", assumed=True,
+    MODULE, "reverse_dict",
     params={"d": Deps}, returns=Deps,
+    locals={"result": Deps, "vals": SetK},
     ensures=[
         ("keys-kept", "d.keys() <= result.keys()"),
         ("reversed", "forall(lambda k, v: implies(v in result.keys(), (k in result[v]) == (k in d.keys() and v in d[k])), Key, Key)"),
     ],
-    note="ASSUMED (bounded natively through getcycle): reverse_dict inverts a dependency map; keys of the input stay keys",
+    loops={
+        0: dict(done="DK", invariant=[
+            ("keys-so-far", "DK <= result.keys()"),
+            ("values-are-keys", "forall(lambda k, v: implies(k in DK and v in d[k], v in result.keys()), Key, Key)"),
+            ("reversed-so-far", "forall(lambda k, v: implies(v in result.keys(), (k in result[v]) == (k in DK and v in d[k])), Key, Key)"),
+        ]),
+        1: dict(done="DV", invariant=[
+            ("keys-so-far", "DK <= result.keys() and k in result.keys()"),
+            ("values-are-keys", "forall(lambda k2, v: implies((k2 in DK and v in d[k2]) or (k2 == k and v in DV), v in result.keys()), Key, Key)"),
+            ("reversed-so-far", "forall(lambda k2, v: implies(v in result.keys(), (k2 in result[v]) == ((k2 in DK and v in d[k2]) or (k2 == k and v in DV))), Key, Key)"),
+        ]),
+    },
+    note="the result is a defaultdict(set): looking up an absent key creates it (modelled)",
 )
 
 _STACK = [
@@ -131,7 +144,7 @@ cycle_c = Contract(
     MODULE, "_toposort[returncycle]", source="_toposort",
     params={"dsk": Deps, "keys": T.Seq(Key), "returncycle": T.Bool, "dependencies": Deps, "REACH": SetK},
     locals={"completed": SetK, "seen": SetK, "nodes": T.Seq(Key), "next_nodes": T.Seq(Key), "cur": Key, "prev": Key,
-            "priorities": T.Map(Key, T.Int), "npopped": T.Int, "inplay": SetK, "dependents": Deps, "cycle": T.Seq(Key), "deps": SetK,
+            "priorities": T.Map(Key, T.Int), "npopped": T.Int, "inplay": SetK, "dependents": Deps, "dependentsW": Deps, "cycle": T.Seq(Key), "deps": SetK,
             "push": T.Seq(T.Int), "exp": T.Map(Key, T.Int), "rank": T.Map(Key, T.Int), "CNT": T.Int,
             "nodes0": T.Seq(Key), "nodesL": T.Seq(Key), "push0": T.Seq(T.Int), "DJ": T.Map(Key, T.Int), "E0": T.Int},
     returns=T.Seq(Key),
@@ -162,6 +175,7 @@ cycle_c = Contract(
             ("popped-entries-are-in-play, priority = depth of the deepest popped copy", _POPPED),
         ]),
         4: dict(invariant=[
+            ("dependents-untouched (`deps` is only read)", "same(dependents, dependentsW)"),
             ("walk-shape", "len(cycle) >= 2 and cycle[0] == nxt and cycle[len(cycle) - 1] == prev"),
             ("C07-each-step-follows-a-dependency", "forall(lambda i: implies(1 <= i and i < len(cycle), cycle[i] in dependencies.keys() and cycle[i - 1] in dependencies[cycle[i]]))"),
             ("walk-in-play", "forall(lambda i: implies(0 <= i and i < len(cycle), cycle[i] in inplay))"),
@@ -178,6 +192,7 @@ cycle_c = Contract(
         ("before", "priorities = {}", "nodes0 = nodes\npush0 = push\nDJ = {}\nE0 = exp[nxt]"),
         ("after", "priorities[nodes.pop()] = -npopped", "DJ[nodes0[len(nodes)]] = len(nodes)"),
         ("after", "priorities[nxt] = -npopped", "DJ[nxt] = E0\nassert_(len(nodes) - 1 == E0, 'stopped-at-the-expanded-entry')"),
+        ("before", "while prev != cycle[0]", "dependentsW = dependents"),
         ("before", "deps = dependents[cycle[-1]]", "assert_(prev in inplay and prev != nxt and E0 < DJ[prev] and E0 <= push0[DJ[prev]] and nodes0[push0[DJ[prev]]] in inplay and prev in dependencies[nodes0[push0[DJ[prev]]]], 'the-entry-that-pushed-prev-is-in-play-and-depends-on-it')"),
     ],
     drop=["if keys is None", "if dependencies is None"],
@@ -194,3 +209,5 @@ def setup(eng):
     eng.consts["EMPTYK"] = SV(SetK.empty(), SetK)
     eng.isinstance_static[("Seq<Key>", "list")] = True
     eng.funcs["reverse_dict"] = FuncVal("reverse_dict", "contract", reverse_dict)
+    eng.funcs["defaultdict"] = FuncVal("defaultdict", "model", lambda e, st, node, want: e.bi_dict(ast.Call(func=ast.Name(id="dict", ctx=ast.Load()), args=[], keywords=[]), st, want))
+    eng.defaultdicts = {("result", ())}  # reverse_dict's accumulator is a defaultdict(set)
